@@ -279,7 +279,7 @@ P("C13",
      "silent, disconnect) x announced metadata_size (true, +-1, 2^31-1, just over the configured maximum, 2^32 + true size, 0) x connect time / direction / answer delay x parallel metadata downloads x "
      "info dictionaries of 1..3 metadata pieces: if metadata is adopted it hashes to the link and carries the info name; a peer announcing more than the maximum never receives a request; with an honest peer the "
      "fetch succeeds, else the stuck-state predicate fires; a liar never stops the torrent; metadata over the configured piece limit is not adopted",
-     Q(48, 16, 900), T(2000, 16), min_nontrivial_frac=0.3, shrinktime="40s"),
+     Q(96, 16, 900), T(2000, 16), min_nontrivial_frac=0.3, shrinktime="40s"),
   ])
 
 P("C14",
